@@ -339,19 +339,23 @@ def headL (cs : List Char) : Head × List Char :=
       | some r => (.falsity, r)
       | none => (.falsity, cs)
 
+/-- `(":-" ~ body)?` after the head -/
+def neckBodyL (r : List Char) : List BodyAtom × List Char :=
+  match skip r with
+  | ':' :: '-' :: r0 => bodyL (skip r0)
+  | _ => ([], r)
+
+/-- `head ~ (":-" ~ body)? ~ "."`, started where the rule starts -/
+def ruleBodyL (cs : List Char) : Option (Rule × List Char) :=
+  match skip (neckBodyL (headL (skip cs)).2).2 with
+  | '.' :: r2 => some (⟨(headL (skip cs)).1, (neckBodyL (headL (skip cs)).2).1⟩, r2)
+  | _ => none
+
 /-- `rule = { (!"." ~ head ~ (":-" ~ body)?) ~ "." }` -/
 def ruleL (cs : List Char) : Option (Rule × List Char) :=
   match cs with
   | '.' :: _ => none
-  | _ =>
-    let (h, r) := headL (skip cs)
-    let (b, r1) : List BodyAtom × List Char :=
-      match skip r with
-      | ':' :: '-' :: r0 => bodyL (skip r0)
-      | _ => ([], r)
-    match skip r1 with
-    | '.' :: r2 => some (⟨h, b⟩, r2)
-    | _ => none
+  | _ => ruleBodyL cs
 
 /-- `program = { rule* }` -/
 def rulesL : Nat → List Char → List Rule × List Char
